@@ -33,6 +33,9 @@ def corpus():
         "c04 k_acct_replay cbe=fs sbe=fs devs=2 hist=s1|r0:0:2|f1:1|c1:b@1|s1|s0|s1|s1|s0|s1|s0|s0|s1",
         # the common ancestor lies more than one scan page (32 proofs) behind the server's head
         "c04 k_far_behind cbe=fs sbe=fs devs=2 obs=end hist=s0|c0:a|s0|s1|%s|c1:b|s0|s1|s0|s1|s1|s0" % "|".join(["u0:a"] * 36),
+        # an offline rename back to the name the server already has (A -> B -> A): the repeated event has the same
+        # commit hash as the server's head
+        "c04 k_rename_back cbe=fs sbe=fs devs=2 hist=s0|s1|r0:0:1|s0|s1|r0:0:2|r0:0:1|s0|s1|s0|s1|s1|s0",
         "c04 k_three cbe=fs sbe=fs devs=3 hist=s0|s1|s2|t:50|c0:a|t:60|c1:b|t:70|c2:c|s0|s1|s2|s2|s1|s0|s1|s0|s2",
     ]
 
@@ -60,6 +63,12 @@ def _cross_log_effect(P, Q, d, name):
     return Q[d]["logs"][name][0] < P[d]["logs"][name][0]
 
 
+def _dup_head(dev_toks, srv_toks):
+    """the device holds the server's whole log and, after it, events ending in one that is byte-identical to the
+    server's head (same commit hash): finding C04-repeated-head-event-never-pushed"""
+    return bool(srv_toks) and len(dev_toks) > len(srv_toks) and dev_toks[:len(srv_toks)] == srv_toks and dev_toks[-1] == srv_toks[-1]
+
+
 def model_input(cases, impl):
     """for every successful sync step and every log known to both sides before it: the two logs as observed"""
     out = []
@@ -80,7 +89,7 @@ def model_input(cases, impl):
             for name, (ln, root, toks) in sorted(P[d]["logs"].items()):
                 if name not in P["SRV"]["logs"] or not toks or not P["SRV"]["logs"][name][2]:
                     continue
-                if _cross_log_effect(P, Q, d, name):
+                if _cross_log_effect(P, Q, d, name) or _dup_head(toks, P["SRV"]["logs"][name][2]):
                     continue
                 out.append("%s %s %d %s D=%s S=%s" % (SUB, cid, st, name, _recs(P[d], name), _recs(P["SRV"], name)))
                 n += 1
@@ -104,7 +113,7 @@ def impl_projection(obs):
         for name, (ln, root, toks) in sorted(P[d]["logs"].items()):
             if name not in P["SRV"]["logs"] or not toks or not P["SRV"]["logs"][name][2]:
                 continue
-            if _cross_log_effect(P, Q, d, name):
+            if _cross_log_effect(P, Q, d, name) or _dup_head(toks, P["SRV"]["logs"][name][2]):
                 continue
             a = Q[d]["logs"].get(name, (0, "-", []))[2]; b = Q["SRV"]["logs"].get(name, (0, "-", []))[2]
             out.append("%d %s dev=%s srv=%s" % (st, name, ",".join(a), ",".join(b)))
@@ -139,6 +148,7 @@ def oracle(case, obs):
                         fails.append({"oracle": "ok_sync_same_roots", "log": name.split(":")[0],
                                       "folder_new_on_server": name.startswith("folder:") and name not in prev_srv["logs"],
                                       "device_log_shrank": name in prev_dev["logs"] and prev_dev["logs"][name][0] > a.get(name, (0,))[0],
+                                      "dup_head": _dup_head(dev["logs"].get(name, (0, "-", []))[2], srv["logs"].get(name, (0, "-", []))[2]),
                                       "detail": "step %d: %s reported success but %s log differs: device %s server %s" % (st, op, name, a.get(name), b.get(name))})
     # quiescence: the generator ends with two rounds of syncs by every device
     last = steps[max(steps)]
@@ -156,6 +166,7 @@ def oracle(case, obs):
                     if name == "files": continue
                     if ref is not None and sg.get(name) != ref.get(name):
                         fails.append({"oracle": "converged_logs", "log": name.split(":")[0],
+                                      "dup_head": w.startswith("D") and _dup_head(last["who"][w]["logs"].get(name, (0, "-", []))[2], last["who"]["SRV"]["logs"].get(name, (0, "-", []))[2]),
                                       "detail": "after the quiescent rounds %s %s log %s != server %s" % (w, name, sg.get(name), ref.get(name))})
             served = {}
             for w, W in last["who"].items():
